@@ -3,7 +3,7 @@ import copy
 
 from hypothesis import strategies as st
 
-from vv import kit, struct
+from vv import hier, kit, struct
 from vv.core import Result, exc_violation, innermost_is_harness
 from vv.ref import tree as ref
 from vv.util import deq
@@ -102,11 +102,19 @@ def same_parts(a, b):
 
 def check_published(res, engine, composite, when):
     state = engine.state
-    pairs = [('processes', engine.processes, state.get_processes()),
-             ('steps', engine.steps, state.get_steps()),
-             ('flow', engine.flow, state.get_flow()),
-             ('topology', engine.topology, state.get_topology())]
-    for name, published, stored in pairs:
+
+    def both(procs, steps):
+        # a legacy deriver may be listed under `processes`: which of the two
+        # dictionaries holds a step is not part of the statement
+        # (norm builds fresh dictionaries; the instances are not copied)
+        return hier.deep_merge(norm(procs) or {}, norm(steps) or {})
+    pairs = [('processes+steps', both(engine.processes, engine.steps),
+              both(state.get_processes(), state.get_steps()),
+              both(composite['processes'], composite['steps'])),
+             ('flow', engine.flow, state.get_flow(), composite['flow']),
+             ('topology', engine.topology, state.get_topology(),
+              composite['topology'])]
+    for name, published, stored, comp in pairs:
         d = same_parts(norm(published), norm(stored))
         if d:
             res.fail('published.' + name, '%s: engine.%s differs from the '
@@ -114,7 +122,7 @@ def check_published(res, engine, composite, when):
                      % (when, name, d, norm(published), norm(stored)),
                      'engine.py:apply_update')
             return False
-        d = same_parts(norm(composite[name]), norm(stored))
+        d = same_parts(norm(comp), norm(stored))
         if d:
             res.fail('composite.' + name, '%s: the Composite the engine was '
                      'built from differs from the hierarchy in %s: %s'
